@@ -136,7 +136,10 @@ def mpi_sanitized(out, vh_asan, vh_plain, wdir, seed, tier):
     runs = [("asan", vh_asan, 3, 0, 4 if tier == "quick" else 14, dict(SAN_ENV)), ("asan", vh_asan, 5, 4, 7 if tier == "quick" else 30, dict(SAN_ENV))]
     supp = "/usr/share/openmpi/openmpi-valgrind.supp"
     vg = ["valgrind", "--tool=memcheck", "-q", "--error-exitcode=0", "--num-callers=30", "--leak-check=no", "--track-origins=no"] + (["--suppressions=" + supp] if os.path.exists(supp) else [])
-    runs.append(("memcheck", vg + [vh_plain], 5, 0, 1 if tier == "quick" else 8, {"VH_STDERR_MARKERS": "1"}))
+    # cases 0 and 1 of `par` are a fixed Hubbard atom (4-6 2PGF parts): with 8 ranks some ranks never get a job
+    runs.append(("memcheck", vg + [vh_plain], 8, 0, 1 if tier == "quick" else 2, {"VH_STDERR_MARKERS": "1"}))
+    if tier == "thorough":
+        runs.append(("memcheck", vg + [vh_plain], 5, 2, 8, {"VH_STDERR_MARKERS": "1"}))
     for (tool, vh, np_, lo, hi, env) in runs:
         tag = "mpi.%s.np%d" % (tool, np_)
         odir = os.path.join(wdir, tag + ".stderr")
